@@ -45,6 +45,12 @@ def plan(tier, seed):
         for crc in (True, False):
             shards.append({"kind": "fault", "n": n, "blk": blk, "crc": crc, "size_ind": (i + int(crc)) % 2 == 0, "cs": seed * 100 + 50 + i})
     shards.append({"kind": "fault", "n": 150, "blk": 7, "crc": True, "size_ind": True, "zeros": True, "cs": seed * 100 + 90})
+    # all-zero value (CRC-16/XMODEM is blind to missing zero bytes) from a server that does not announce the size:
+    # only correct acknowledging saves the data
+    shards.append({"kind": "fault", "n": 150, "blk": 7, "crc": True, "size_ind": False, "zeros": True, "cs": seed * 100 + 91})
+    if tier != "quick":
+        shards.append({"kind": "fault", "n": 1800, "blk": 127, "crc": True, "size_ind": False, "zeros": True, "cs": seed * 100 + 92})
+        shards.append({"kind": "fault", "n": 64, "blk": 3, "crc": True, "size_ind": False, "zeros": True, "cs": seed * 100 + 93})
     return shards
 
 
@@ -111,16 +117,19 @@ def run_undisturbed(ctx, desc):
             for crc_req, crc_sup in ((True, True), (False, True), (True, False)):
                 c = {"kind": "undisturbed", "n": n, "blk": blk, "crc": crc_req, "crc_support": crc_sup, "size_ind": rng.random() < 0.6,
                      "style": rng.choice(["all", "raw", "chunks", "chunks", "rawinto"]), "seed": rng.randint(0, 1 << 30),
-                     "mux": [rng.choice([0x1F50, 0x2000, 0xFFFF]), rng.choice([0, 1, 255])]}
+                     "mux": [rng.choice([0x1F50, 0x2000, 0xFFFF]), rng.choice([0, 1, 255])],
+                     # how the back end hands frames over: python-can messages, or Network.notify() from one reused buffer
+                     "backend": rng.choice(["listener", "listener", "notify-reuse"])}
                 run_undisturbed_case(ctx, c)
 
 
 def run_undisturbed_case(ctx, c):
-    rig = rigs.ClientRig(node_id=9, timeout=0.004, crc_support=c["crc_support"], block_upload_size_indicated=c.get("size_ind", True))
+    rig = rigs.ClientRig(node_id=9, timeout=0.004, crc_support=c["crc_support"], block_upload_size_indicated=c.get("size_ind", True),
+                         via=c.get("backend", "listener"))
     value = payload(c["n"], c["seed"])
     rig.server.store[tuple(c["mux"])] = value
-    ctx.case((c["kind"], lenclass(c["n"]), c["blk"] if c["blk"] in (1, 2, 7, 64, 127) else "rand", c["crc"] and c["crc_support"], c["style"], c.get("size_ind", True)),
-             nontrivial=c["n"] > 7)
+    ctx.case((c["kind"], lenclass(c["n"]), c["blk"] if c["blk"] in (1, 2, 7, 64, 127) else "rand", c["crc"] and c["crc_support"], c["style"], c.get("size_ind", True),
+              c.get("backend", "listener")), nontrivial=c["n"] > 7)
     try:
         got = do_block_upload(rig, c)
         ctx.count("undisturbed_compared")
@@ -219,7 +228,9 @@ def run_faults(ctx, desc):
         ctx.case((kind, lenclass(n), blk, crc))
         one(c, lambda rig, act=act: faults.OneShot(end_pred(rig), 0, act))
     # end frame announcing a wrong number of unused bytes (only detectable through the CRC)
-    if n % 7:
+    if n % 7 and not (desc.get("zeros") and not desc.get("size_ind", True)):
+        # (for an all-zero value whose size was not announced a wrong count is invisible to any client: the checksum of
+        # k zero bytes is the same for every k - an indistinguishable fault, not generated)
         c = dict(c0, kind="end-wrong-n")
         ctx.case(("end-wrong-n", lenclass(n), blk, crc))
         one(c, lambda rig: faults.OneShot(end_pred(rig), 0, lambda f: [f.replace(data=bytes([f.data[0] ^ 0x04]) + f.data[1:])]))
